@@ -84,7 +84,7 @@ F1 == {<<"F1", v, m, ap>> : v \in 1..NV, m \in 1..NM, ap \in 0..1}
 BuildF1(id) == LET v == id[2] m == id[3] ap == id[4] = 1 IN
   Case(id, ap, <<Leaf(<< >>, Fn("f", Sig(<<Variants[v]>>)))>>, LevelToks(Sig(<<Variants[v]>>), <<Modes[m]>>, ap, 0))
 \* F2: two parameters: every pair of variants x a square of modes
-M2 == IF Thorough THEN 1..NM ELSE {1, 2, 3, 4, 7}
+M2 == IF Thorough THEN 1..NM ELSE {1, 2, 4, 7}
 F2 == {<<"F2", v1, v2, m1, m2>> : v1 \in 1..NV, v2 \in 1..NV, m1 \in M2, m2 \in M2}
 BuildF2(id) == LET v1 == id[2] v2 == id[3] m1 == id[4] m2 == id[5] IN
   Case(id, TRUE, <<Leaf(<< >>, Fn("f", Sig(<<Variants[v1], Variants[v2]>>)))>>,
@@ -106,7 +106,7 @@ FN(n) == {<<"FN", n, r, h, s>> : r \in 0..5, h \in 0..(2 ^ n - 1), s \in 0..(NM 
 BuildFN(id) == LET n == id[2] r == id[3] h == id[4] s == id[5] IN
   Case(id, (r + s) % 5 # 0, <<Leaf(<< >>, Fn("f", RotSig(n, r, h)))>>, LevelToks(RotSig(n, r, h), NeverAbsent(RotSig(n, r, h), RotModes(n, s), (r + s) % 5 # 0), (r + s) % 5 # 0, s % 2))
 \* F3full (thorough): three parameters, every triple of variants, modes rotating
-F3full == {<<"F3", v1, v2, v3, s>> : v1 \in 1..NV, v2 \in 1..NV, v3 \in 1..NV, s \in {0, 3, 5, 8}}
+F3full == {<<"F3", v1, v2, v3, s>> : v1 \in 1..NV, v2 \in 1..NV, v3 \in 1..NV, s \in {0, 5}}
 BuildF3(id) == LET v1 == id[2] v2 == id[3] v3 == id[4] s == id[5] IN
   Case(id, TRUE, <<Leaf(<< >>, Fn("f", Sig(<<Variants[v1], Variants[v2], Variants[v3]>>)))>>,
        LevelToks(Sig(<<Variants[v1], Variants[v2], Variants[v3]>>), RotModes(3, s), TRUE, s % 2))
@@ -119,7 +119,8 @@ Pal == << << >>,                                                                
           Sig(<<NoDef[2], WithDef[5], WithDef[6]>>),                                    \* (a: str, b: List[int] = [1, 2], *, c: Enum = B)
           Sig(<<WithDef[7], NoDef[5], NoDef[6]>>),                                      \* (a: int = None, *, b: List[int], c: Enum)
           <<P("_h", "pk", WithDef[1]), P("x", "pk", WithDef[3])>>,                      \* (_h: int = 7, x: bool = False)
-          <<P("_h", "pk", NoDef[4]), P("x", "pk", WithDef[1])>>                         \* (_h: Optional[int], x: int = 7)   the recorded deviation
+          <<P("_h", "pk", NoDef[4]), P("x", "pk", WithDef[1])>>,                        \* (_h: Optional[int], x: int = 7)   the recorded deviation
+          <<P("bb", "pk", WithDef[5]), P("x", "pk", WithDef[1])>>                       \* (bb: List[int] = [1, 2], x: int = 7)   --b of a method is ambiguous (--bb, --bb+)
        >>
 NP == Len(Pal)
 PalModes(ps, s) == [i \in 1..Len(ps) |-> Modes[((s + 3 * i) % NM) + 1]]
@@ -146,7 +147,7 @@ BuildK(id) ==
             [] OTHER    -> LevelToks(init, PalModes(init, s), TRUE, 0) \o <<PosTok(VStr("zz"))>>)        \* unknown sub-command
 KS == IF Thorough THEN {0, 2, 3, 5, 7, 9} ELSE {0, 3, 7}
 K1 == {<<"K", i0, <<j>>, 1, s, f>> : i0 \in 1..NP, j \in 1..NP, s \in KS, f \in 1..5}
-K2 == {<<"K", i0, <<j1, j2>>, c, s, f>> : i0 \in {1, 2, 4, 7}, j1 \in 1..NP, j2 \in {1, 3, 5}, c \in 1..2, s \in KS, f \in 1..3}
+K2 == {<<"K", i0, <<j1, j2>>, c, s, f>> : i0 \in {1, 2, 4, 7, 9}, j1 \in 1..NP, j2 \in {1, 3, 5}, c \in 1..2, s \in KS, f \in 1..3}
 K3 == {<<"K", i0, <<j1, j2, 1>>, c, s, f>> : i0 \in {1, 3}, j1 \in {2, 4, 6}, j2 \in {3, 5}, c \in 1..3, s \in KS, f \in 1..2}
 
 \* T: lists and nested dicts of functions (and a class inside them)
@@ -177,7 +178,7 @@ BuildT(id) ==
             [] form = 3 -> (IF DOMAIN section = {} THEN explicit ELSE rootcfg \o Words(lf.path) \o tail)                      \* config first, then the words
             [] form = 4 -> Words(FrontSeq(lf.path))                                                                          \* stops before the leaf
             [] OTHER    -> Words(FrontSeq(lf.path)) \o <<PosTok(VStr("zz"))>>)
-TS == IF Thorough THEN {0, 1, 3, 4, 6, 8} ELSE {0, 3}
+TS == IF Thorough THEN {0, 3, 4, 8} ELSE {0, 3}
 TJ == IF Thorough THEN 1..NP ELSE {2, 3, 5, 7}
 T == {<<"T", sh, j1, j2, j3, w, s, f>> : sh \in 1..6, j1 \in TJ, j2 \in (IF Thorough THEN {1, 4, 6} ELSE {4, 6}), j3 \in {1, 3}, w \in 1..3, s \in TS, f \in 1..5}
 
@@ -197,5 +198,5 @@ MCNext == ABuild \/ Next
 Spec == Init /\ [][MCNext]_vars
 
 \* ------------------------------------------------------------------ emission for the replay
-EmitCase == (Emit /\ Done) => PrintT(ToJson([id |-> cs.aid, aspos |-> cs.aspos, leaves |-> cs.leaves, argv |-> cs.argv, exp |-> AlgOutcome, at |-> IF out = "ok" THEN "ok" ELSE ret]))
+EmitCase == (Emit /\ Done) => PrintT(ToJson([id |-> cs.aid, aspos |-> cs.aspos, leaves |-> cs.leaves, argv |-> cs.argv, exp |-> AlgOutcome, at |-> IF out = "ok" THEN "ok" ELSE ret, dev |-> Deviation]))
 =============================================================================
